@@ -214,7 +214,13 @@ func (p *proxy) ServeHTTP(w http.ResponseWriter, r *http.Request) {
 	}
 	id := p.newID()
 	log.Printf("Received new frontend request %q", id)
-	// Filter out hop-by-hop headers from the request
+	// Filter out hop-by-hop headers from the request: the ones the client
+	// nominated in its Connection header, and the standard ones.
+	for _, options := range r.Header["Connection"] {
+		for _, option := range strings.Split(options, ",") {
+			r.Header.Del(strings.TrimSpace(option))
+		}
+	}
 	for name := range r.Header {
 		if isHopByHopHeader(name) {
 			r.Header.Del(name)
